@@ -1,17 +1,18 @@
 // ---- environment of the slice `override_reassign` (Schedule::override_reassign) ------------------------
 // Included inside `pub mod tr { … }` after env/im_shim.vs, env/depot_usage_shim.vs, the type definitions, the module
 // `trs` (env/transition_spec.vs), env/update_tours_shim.vs and env/train_formation_update_shim.vs.
-// Everything `external_body` in this file is an ASSUMPTION (listed in the header of slices/override_reassign.vs);
-// everything else is an open spec function or a proved lemma.
+// ASSUMPTIONS in this file (listed in the header of slices/override_reassign.vs): the Display spec of Segment, the
+// external_body shim `SeqIter<&T>::cloned`, the trait `node_items::NodeItems` (reading of an iterator parameter).  Everything
+// else is an open spec function or a proved lemma.
 //
 // Copied text (the files that define it cannot be included next to env/depot_usage_shim.vs / env/update_tours_shim.vs:
 // duplicate definitions of the im::HashSet shim, `Vehicle`, `keys`, `type_of`, the Ord / binary_search text …):
-//   * env/sched_guard_shim.vs: `Network::sp_compatible`, `vtype`, `Schedule::{has_tour, sp_tour_of, seg_at}`,
-//     `lemma_segment_unique`, `real_in`, `sched_types`, `viol_sum`, `len_sum`, `Schedule::{eff_type, change_ok, upd_pre,
-//     touches_type}` -- the vocabulary of the contracts of check_receiver_type_compatibility and
-//     update_transitions_and_violation_fast;
+//   * env/sched_guard_shim.vs: `Network::sp_compatible`, `vtype`, `Schedule::{has_tour, sp_tour_of, seg_at}`, `real_in`,
+//     `sched_types`, `viol_sum`, `len_sum`, `Schedule::{eff_type, change_ok, upd_pre, touches_type}` -- the vocabulary of the
+//     contracts of check_receiver_type_compatibility and update_transitions_and_violation_fast;
 //   * env/remove_segment_shim.vs: the Display spec of Segment, `ids_gain` (contract of add_dummy_tour), `svc_mask`,
-//     `svc_filter`, `has_service` (contract of Tour::new_dummy), `ids_valid`, `Schedule::ids_ok`.
+//     `svc_filter`, `has_service` (contract of Tour::new_dummy), `ids_valid`, `Schedule::{ids_ok, next_dummy_id}`;
+//     `Schedule::or_transitions_ok` is `transitions_ok` of that file with room for two listed vehicles.
 
 // A-display: `{}` of a Segment (hand written Display impl of the repository; a no-op outside verus!)
 impl vstd::std_specs::fmt::DisplaySpecImpl for Segment {
